@@ -143,6 +143,7 @@ __CPROVER_ensures (!gh_first || (gh_sr->lhs == grammar->axiom && gh_sr->rhs_len 
 
 /* names are strings inside one buffer (a name the contracts look into must point somewhere) */
 static char namebuf[128];        /* (more than 64 bytes: not split into one symbol per byte) */
+int cex_rl, cex_tl, cex_anode, cex_cost, cex_has_tr;       /* (trace markers read by the counterexample replay) */
 #define RHS_NAME(k) if ((k) < gh_rl) { size_t o; __CPROVER_assume (o <= 11); rhs[k] = namebuf + o; }
 #define TR_NONNEG(k) ((k) >= gh_tl || tr[k] >= 0)
 void h_rg_rule (void)
@@ -163,6 +164,7 @@ void h_rg_rule (void)
   TV (0) TV (1) TV (2) TV (3) TV (4) TV (5) TV (6) TV (7)
   gh_lhs = lhs; gh_rhs0 = rhs; gh_anode = an; gh_cost = cost; gh_transl = has_tr ? tr : NULL; gh_first = first;
   gh_nfind = gh_nadd_nt = gh_nadd_t = gh_ns_calls = gh_nsa = gh_stops = gh_lhs_term = 0;
+  cex_rl = gh_rl; cex_tl = gh_tl; cex_anode = an != NULL; cex_cost = cost; cex_has_tr = has_tr;
   verif_rg_rule (lhs, rhs, an, cost, gh_transl, start_io);
   if (first) VACUITY_CANARY_N ("first rule"); else VACUITY_CANARY_N ("later rule");
   if (has_tr && gh_tl >= 2 && an != NULL) VACUITY_CANARY_N ("translation with abstract node");
